@@ -56,6 +56,10 @@ class NotComparable(Exception):
     pass
 
 
+class AnyInt(object):
+    """in a specification result: 'some integer' (the contract does not fix the value)"""
+
+
 def goal_eq(a, b, path='value'):
     """z3 formula (for the *goal* side: sequences compared at a fresh skolem index) stating a == b structurally.
     Returns a list of (label, formula)."""
@@ -69,6 +73,10 @@ def _geq(a, b, path, out, seen):
     if key in seen:
         return
     seen[key] = True
+    if isinstance(a, AnyInt) or isinstance(b, AnyInt):
+        other = b if isinstance(a, AnyInt) else a
+        out.append((path + ' is an integer', z3.BoolVal(ops.is_intlike(other))))
+        return
     if isinstance(a, (bytes, bytearray)) and isinstance(b, (bytes, bytearray)):
         out.append((path, z3.BoolVal(bytes(a) == bytes(b))))
         return
@@ -250,7 +258,9 @@ def run_unit(name, thunk, on_result=None, max_paths=20000, require_obligations=T
     """explore thunk; thunk (and on_result) register obligations on the current path"""
     res = UnitResult(name)
     from . import models as _models
+    from . import loops as _loops
     _models.USED.clear()
+    _loops.BOUND_HITS.clear()
     t0 = time.time()
     q0, s0 = E.STATS['queries'], E.STATS['solver_s']
     try:
@@ -282,4 +292,5 @@ def run_unit(name, thunk, on_result=None, max_paths=20000, require_obligations=T
     res.solver_s = E.STATS['solver_s'] - s0
     res.unsupported = sorted(set(res.unsupported))
     res.extra['models_used'] = sorted(_models.USED)
+    res.extra['bounded'] = sorted('%s loop#%d explored up to %d iterations' % (k[0], k[1], b) for k, b in _loops.BOUND_HITS)
     return res
